@@ -115,6 +115,9 @@ func TestC07(t *testing.T) {
 			c.Count(fmt.Sprintf("shape.depth%d", depth))
 		}
 		f.Root = root
+		if rapid.IntRange(0, 3).Draw(rt, "collidingdefs") == 0 {
+			addCollidingDefs(rt, c, f, "array")
+		}
 		cs := caseOf(baseConfig(), []string{f.RelPath}, f)
 		jobs := buildJobs(rt, c, f.Root, progRoot, plan, o, cs)
 		c.Sample(sampleOf(cs, jobs))
